@@ -5,9 +5,10 @@ import ScriggoV.Lemmas.LexCtxAllToks
 
 For an HTML template all of whose delimiters are single-identifier shows `{{ident}}` standing at
 stable points of a document that is in the class `D` when read raw (show statements included):
-`scanTemplate` returns without fault and without error, and EVERY token of type `{{` in its output
+`scanTemplate` returns without fault and without error, EVERY token of type `{{` in its output
 starts at a `{{` of the template and carries the context that abstracts the state of the reference
-HTML tokenizer after the text before it (`all_shows_ctx`). Core Lean only. -/
+HTML tokenizer after the text before it, and every `{{` of the template has its token
+(`all_shows_ctx`). Core Lean only. -/
 namespace ScriggoV.LexCtx
 open ScriggoV ScriggoV.Lexer ScriggoV.Gen.LexTables ScriggoV.HtmlTok
 
@@ -212,7 +213,8 @@ delimiter is a show `{{identifier}}` standing at a stable point of the reference
 Then `scanTemplate` returns its tokens without fault and without error, and every token of type
 `{{` among them starts at an offset `n` where `{{` stands in the text and carries the context
 `ctxNat c`, where `(c, u)` is the abstraction of the state of the reference HTML tokenizer after
-`text[0..n)` — all earlier show statements read as plain bytes.
+`text[0..n)` — all earlier show statements read as plain bytes. Conversely no show is skipped: for
+every offset `a` at which a delimiter starts there is a `{{` token that starts at `a`.
 Extra condition, exact: `AsciiU U` — the `unicode` predicates, which the model takes as parameters,
 classify ASCII letters as letters, ASCII digits as digits, and `}` as neither. -/
 theorem all_shows_ctx (U : Lexer.Unicode) (hU : AsciiU U) (text : Bytes) (hT : IdentTemplate text) :
